@@ -30,7 +30,9 @@ NAME_CLASSES = {
 }
 
 ATTR_VALUES = (None, True, False, 0, 7, -3, 2.5, -0.25, 100.0, 'x', 'hello world', 'ünï', [], [1, 'a'], [True, [2, 3]],
-               {'k': 1}, {'k': {'j': 'q'}}, '', 'it\'s', 'a.b', 1e-07, 12345678901234567890, [None], {'a b': 2.5})
+               {'k': 1}, {'k': {'j': 'q'}}, '', 'it\'s', 'a.b', 1e-07, 12345678901234567890, [None], {'a b': 2.5},
+               {'k': [1, {'z': True}]}, [[1, 2], [3, 4]], 0.30000000000000004, -12345, 'say "hi"', 'a, b} c [d', ' lead',
+               {'m': {'n': {'o': -1.5}}}, [False, 'x', 2.25])
 
 FTYPES = ('Integer', 'Real', 'String')
 FCARDS = ((0, 1), (1, 3), (2, 2), (1, -1), (0, -1))
